@@ -154,11 +154,15 @@ FILE_SPEC = r'''
 #define NNZ_MAX ((FMAX - 2) / 2 + 1)     /* > number of entries of any wf file      */
 #endif
 /* decoders of the harness (independent of the reader): this instantiation has 1-byte fields */
-_Static_assert(sizeof(SizeT) == 1 && sizeof(Ptr) == 1 && sizeof(Col) == 1 && sizeof(Val) == 1, "1-byte instantiation");
+_Static_assert(sizeof(SizeT) == 1 && sizeof(Ptr) == 1 && sizeof(Col) == 1 && (sizeof(Val) == 1 || sizeof(Val) == 2), "1-byte index fields, 1- or 2-byte values");
 static SizeT file_n(const absfile *F) { return (SizeT)F->data[0]; }
 static Ptr file_ptr(const absfile *F, size_t i) { return (Ptr)F->data[1 + i]; }
 static Col file_col(const absfile *F, size_t N, size_t j) { return (Col)F->data[1 + (N + 1) + j]; }
-static Val file_val(const absfile *F, size_t N, size_t nnz, size_t j) { return (Val)F->data[1 + (N + 1) + nnz + j]; }
+static Val file_val(const absfile *F, size_t N, size_t nnz, size_t j)
+{
+  size_t off = 1 + (N + 1) + nnz + j * sizeof(Val);
+  return sizeof(Val) == 1 ? (Val)F->data[off] : (Val)((unsigned)F->data[off] | ((unsigned)F->data[off + 1] << 8));   /* little endian */
+}
 /* the header (n and the n+1 row pointers) is completely inside the file */
 static _Bool file_has_header(const absfile *F)
 {
@@ -424,8 +428,10 @@ read_crs_wf = Unit(
     entry='h_read_crs_wf', mode='unwound', unwind='max(NMAX+1,ZMAX)+2', model='none', obj_bits=12,
     flags=OWN_LOOPS,
     defines=TYPES_S8,
-    variants=[{'FMAX': 13, 'NMAX': 3, 'ZMAX': 4}],
-    thorough_variants=[{'FMAX': 13, 'NMAX': 3, 'ZMAX': 4}],      # n <= 4 / nnz <= 5 measured: 611 s
+    # second variant: a value type WIDER than the column type (sizeof(Val) != sizeof(Col)), so that byte offsets computed with
+    # the wrong element size are visible (added after seeded change C19 was missed with 1-byte values)
+    variants=[{'FMAX': 13, 'NMAX': 3, 'ZMAX': 4}, {'FMAX': 13, 'NMAX': 2, 'ZMAX': 3, 'VAL_T': 'unsigned short'}],
+    thorough_variants=[{'FMAX': 13, 'NMAX': 3, 'ZMAX': 4}, {'FMAX': 17, 'NMAX': 3, 'ZMAX': 4, 'VAL_T': 'unsigned short'}],      # n <= 4 / nnz <= 5 measured: 611 s
     bound_text='every well-formed file with n <= 3 rows and nnz <= 4, any pattern (unsorted rows, duplicates, empty rows), any values, every row range',
     assumptions=A_IO, replay='ioadapt', timeout=600,
     witness=WIT,
